@@ -325,6 +325,73 @@ def check_roundtrip(ctx):
                                     read=[str(np.asarray(e["x"]).tolist()),
                                           str(e["s"])])))
                             break
+        # consecutive examples that are equal under == and differ in their
+        # bits (signed zeros, NaN payloads); a str with a lone surrogate (what
+        # os.fsdecode gives for a non-UTF-8 file name) is refused or kept
+        for fmt in ("fb", "npz", "tfrec"):
+            n_eval += 1
+            root = tmp / f"eqbits_{fmt}"
+            attrs = [Attribute(name="id", dtype="int64", shape=()),
+                     Attribute(name="x", dtype="float32", shape=(3,))]
+            if fmt != "fb":
+                attrs.append(Attribute(name="s", dtype="str", shape=()))
+            ds = DatasetStructure(saved_data_description=attrs, compression="",
+                                  examples_per_shard=8, shard_file_type=fmt)
+            d = Dataset.create(root, Metadata(description="eq"), ds)
+            qnan = np.array([0x7fc00000, 0x7fc00001, 0xffc00000],
+                            np.uint32).view(np.float32)
+            xs = [np.array([0.0, 1.0, -0.0], np.float32),
+                  np.array([-0.0, 1.0, 0.0], np.float32),
+                  np.array([0.0, 1.0, -0.0], np.float32),
+                  qnan, qnan[::-1].copy(), qnan]
+            ss = ["a", "a", "caf\udce9.bin", "caf?.bin", "b", "b"]
+            kept = []
+            with d.filler() as f:
+                for x, sv in zip(xs, ss):
+                    vals = {"id": len(kept), "x": x}
+                    if fmt != "fb":
+                        vals["s"] = sv
+                    try:
+                        f.write_example(values=vals, split="train")
+                        kept.append((x, sv))
+                    except ValueError:
+                        pass     # refused (UnicodeEncodeError is a ValueError)
+            d = Dataset(root)
+            for iface in ["numpy", "concurrent"] + (
+                    ["rust"] if fmt == "fb" else []):
+                try:
+                    exs = _read(d, iface)
+                except Exception as e:  # noqa: BLE001
+                    fails.append(C.result(
+                        "round trip", False, function="decode_array",
+                        witness=dict(fmt=fmt, interface=iface,
+                                     presentation="equal-but-different-bits",
+                                     problem="unreadable: " + repr(e)[:200])))
+                    continue
+                for e in exs:
+                    x, sv = kept[C.ex_id(e)]
+                    gs = sv
+                    if fmt != "fb":
+                        gs = e["s"]
+                        gs = gs.item() if isinstance(gs, np.ndarray) else gs
+                        gs = gs.decode("utf-8", "surrogateescape") \
+                            if isinstance(gs, bytes) else str(gs)
+                    if _bits(np.asarray(e["x"]), "float32") != _bits(
+                            x, "float32") or gs != sv:
+                        fails.append(C.result(
+                            "round trip", False,
+                            function="ShardWriterFlatBuffer._write"
+                            if fmt == "fb" else "to_tfrecord",
+                            witness=dict(
+                                fmt=fmt, dtype="float32 / str", interface=iface,
+                                presentation="equal-but-different-bits",
+                                example=C.ex_id(e),
+                                problem="value read differs from the value "
+                                        "written",
+                                written=[x.view(np.uint32).tolist(), repr(sv)],
+                                read=[np.asarray(e["x"], np.float32).view(
+                                    np.uint32).tolist(), repr(gs)])))
+                        break
         # one shard far larger than any block size a codec wrapper might
         # use (40 MiB of incompressible float32 in 10 examples)
         big_comps = ["LZ4", "ZSTD"] if tier == "quick" else [
